@@ -119,8 +119,19 @@ class Design:
     def conn(self, a, b, at):
         self.stmts.append({"k": "c", "a": a, "b": b, "at": at})
 
-    def blk(self, kind, at, wr, rd=()):
-        self.stmts.append({"k": kind, "at": at, "wr": [{"o": o, "op": op} for (o, op) in wr], "rd": list(rd)})
+    def blk(self, kind, at, wr, rd=(), calls=()):
+        """@update ('u') / `//=` lambda ('l') / @update_ff ('f') block or @s.func helper ('h') of
+        component `at`; calls: 0-based indices into self.stmts of the helpers it calls (helpers of
+        the same component).  Returns the index of the new statement."""
+        self.stmts.append({"k": kind, "at": at, "wr": [{"o": o, "op": op} for (o, op) in wr], "rd": list(rd),
+                           "calls": list(calls)})
+        return len(self.stmts) - 1
+
+    def fun(self, at, wr=(), rd=(), calls=()):
+        return self.blk("h", at, wr, rd, calls)
+
+    def has_helpers(self):
+        return any(st["k"] == "h" for st in self.stmts)
 
     # -- names
     def comp_path(self, c):
@@ -167,7 +178,8 @@ class Design:
             "objs": [{"s": o["s"], "lo": o["lo"], "hi": o["hi"], "d": o["d"], "t": o["t"], "h": o["h"]}
                      for o in self.objs],
             "stmts": [dict(st) if st["k"] == "c" else
-                      {"k": st["k"], "at": st["at"], "wr": st["wr"], "rd": st["rd"]} for st in self.stmts],
+                      {"k": st["k"], "at": st["at"], "wr": st["wr"], "rd": st["rd"],
+                       "calls": [c + 1 for c in st.get("calls", [])]} for st in self.stmts],
         }
 
     def key(self):
@@ -177,13 +189,16 @@ class Design:
         sg = ",".join("%s:%s" % (".".join(["s"] + self.comp_path(s["h"]) + [s["name"]]), s["k"] + s["ty"])
                       for i, s in enumerate(self.sigs) if (i + 1) in used)
         ss = []
-        for st in self.stmts:
+        for si, st in enumerate(self.stmts):
             at = ".".join(["s"] + self.comp_path(st["at"]))
             if st["k"] == "c":
                 ss.append("%s~%s@%s" % (self.abs_name(st["a"]), self.abs_name(st["b"]), at))
             else:
-                ss.append("%s@%s{%s}%s" % (st["k"], at, ",".join(self.abs_name(w["o"]) + w["op"] for w in st["wr"]),
-                                           ("<" + ",".join(self.abs_name(r) for r in st["rd"])) if st["rd"] else ""))
+                # helpers are named by their statement index (h3 = the helper fn3 of the source)
+                ss.append("%s@%s{%s}%s%s" % (st["k"] if st["k"] != "h" else "h%d" % si, at,
+                                             ",".join(self.abs_name(w["o"]) + w["op"] for w in st["wr"]),
+                                             ("<" + ",".join(self.abs_name(r) for r in st["rd"])) if st["rd"] else "",
+                                             (">" + ",".join("h%d" % c for c in st["calls"])) if st.get("calls") else ""))
         return (self.tag + "|" if self.tag else "") + sg + "|" + ";".join(ss)
 
     # -- JSON for the worker
@@ -204,7 +219,7 @@ class Design:
 
     # -- shape predicates used to name families of findings
     def blocks(self):
-        return [st for st in self.stmts if st["k"] != "c"]
+        return [st for st in self.stmts if st["k"] not in ("c", "h")]
 
     def same_block_overlapping_sibling_slices(self):
         for st in self.blocks():
@@ -332,14 +347,24 @@ def gen_variant(D, perm, flips, junkseed, cname):
                 (w,) = st["wr"]
                 B.append("%s //= lambda: %s" % (D.rel_name(w["o"], c), _rhs(D, st, si, 0, c, gmap)))
             else:
-                B.append("@update" if st["k"] == "u" else "@update_ff")
-                B.append("def blk%d():" % si)
+                if st["k"] == "h":
+                    B.append("@s.func")
+                    B.append("def fn%d():" % si)
+                else:
+                    B.append("@update" if st["k"] == "u" else "@update_ff")
+                    B.append("def blk%d():" % si)
+                body = []
                 for wi, w in enumerate(st["wr"]):
-                    B.append("  %s %s %s" % (D.rel_name(w["o"], c), w["op"], _rhs(D, st, si, wi, c, gmap)))
+                    body.append("  %s %s %s" % (D.rel_name(w["o"], c), w["op"], _rhs(D, st, si, wi, c, gmap)))
                 for ri in range(len(st["wr"]), len(st["rd"])):
-                    B.append("  _r%d = %s" % (ri, D.rel_name(st["rd"][ri], c)))
-                if not st["wr"] and not st["rd"]:
-                    B.append("  pass")
+                    body.append("  _r%d = %s" % (ri, D.rel_name(st["rd"][ri], c)))
+                # calls of helpers: as statements or inside an expression, before or after the
+                # block's own assignments (a helper may be defined before or after its callers:
+                # the statement order is `perm`)
+                calls = ["  fn%d()" % h if (junkseed + si + k) % 3 else "  _c%d = fn%d()" % (k, h)
+                         for k, h in enumerate(st.get("calls", []))]
+                body = calls + body if (junkseed + si) % 2 else body + calls
+                B += body or ["  pass"]
         if not B:
             B = ["pass"]
         out += L + ["    " + x for x in B] + [""]
@@ -526,24 +551,28 @@ def classify(designs, res=None, nchunks=None):
     if n == 0:
         return [], {}
     ncpu = os.cpu_count() or 4
-    # a TLC process costs ~1-2 CPU-seconds before its first state and ~25 ms per design after that
-    nchunks = nchunks or max(1, min(ncpu, (n + 199) // 200))
+    # a TLC process costs ~5 CPU-seconds before its first state and a few ms per design after
+    # that -- unless it collects coverage (`-coverage` makes the evaluation of Analysis ~10x slower):
+    # the per-action coverage is therefore taken from ONE extra run over a stride sample of the
+    # batch (chunk index -1; its printed results are not used), all designs are classified without
+    nchunks = nchunks or max(1, min(ncpu, (n + 119) // 120))
     size = (n + nchunks - 1) // nchunks
     chunks = [(i, designs[i:i + size]) for i in range(0, n, size)]
+    covsample = designs[:24] + designs[24::max(1, n // 40)][:48]     # the grids start with the fixed shapes
     tmp = tempfile.mkdtemp(prefix="elabtlc_")
     out = [None] * n
     cov = {}
 
     def one(ci):
-        base, ds = chunks[ci]
+        base, ds = chunks[ci] if ci >= 0 else (-1, covsample)
         fn = os.path.join(tmp, "in_%d.json" % ci)
         with open(fn, "w") as f:
             json.dump({"designs": [d.tlc() for d in ds]}, f)
         return base, len(ds), tlc.run("Elab", cfg="Elab.cfg", env={"VERIF_INPUT": fn}, workers=1,
-                                      coverage=True, timeout=3600)
+                                      coverage=ci < 0, timeout=3600, light=ci >= 0)
     try:
         with ThreadPoolExecutor(max_workers=ncpu) as ex:
-            for base, cnt, r in ex.map(one, range(len(chunks))):
+            for base, cnt, r in ex.map(one, range(-1, len(chunks))):
                 if res is not None:
                     res.add_tlc(r)
                 if r.violated:
@@ -553,6 +582,8 @@ def classify(designs, res=None, nchunks=None):
                     raise MachineryError("TLC failed on Elab: %s\n%s" % (r.errors, r.out[-3000:]))
                 for k, v in r.coverage.items():
                     cov[k] = cov.get(k, 0) + v[1]
+                if base < 0:
+                    continue
                 acc = {}
                 for p in r.prints:
                     if p and p[0] == "R":
@@ -1261,6 +1292,7 @@ C09_SHAPES = {
     "disjoint":     [("St", ".f", ".g"), ("St", ".f[0:2]", ".g.q"), ("b8", "[0:2]", "[4:8]")],
 }
 C09_DRIVERS = ("u", "l", "f", "net", "const")
+HELPER_DRIVERS = ("hu", "hw", "hd")
 C09_POS = ("same", "child-in", "child-out", "sibling", "grandchild", "child-wire")
 
 
@@ -1281,6 +1313,22 @@ def _add_driver(D, kind, T, view, H, n):
         if t not in ("b2", "b4", "b8"):
             return False
         D.conn(D.obj(T, view), D.const(H, t, n), H)
+    elif kind in HELPER_DRIVERS:
+        # an @update block of H that writes the view only through @s.func helpers: directly (hu),
+        # through a wrapper (hw), through a helper that calls two wrappers of the writing helper (hd).  A
+        # second helper-driver of exactly the same view from the same component SHARES the writing
+        # helper (two blocks, one helper).
+        o = D.obj(T, view)
+        h = next((i for i, st in enumerate(D.stmts)
+                  if st["k"] == "h" and st["at"] == H and [w["o"] for w in st["wr"]] == [o]), None)
+        if h is None:
+            h = D.fun(H, [(o, "@=")])
+        if kind == "hu":
+            D.blk("u", H, [], calls=[h])
+        elif kind == "hw":
+            D.blk("u", H, [], calls=[D.fun(H, calls=[h])])
+        else:
+            D.blk("u", H, [], calls=[D.fun(H, calls=[D.fun(H, calls=[h]), D.fun(H, calls=[h])])])
     elif kind == "net":
         if H == 1:
             src = D.obj(D.sig(1, "i%d" % n, "in", t))
@@ -1337,6 +1385,251 @@ def c09_grid():
                         D = c09_cell(pos, A, B, shape, ty, vA, vB)
                         if D is not None:
                             out.append(D)
+    return out
+
+
+def func_grid():
+    """The cells of the defect grid with a helper-function driver on one or both sides: driver A
+    through helpers x every second driver, and every direct driver A x driver B through helpers
+    (every view triple of a shape for hu x none/u/net/hu, the first one otherwise)."""
+    out = []
+    for pos in C09_POS:
+        if pos == "sibling":
+            pairs = [("net", b) for b in HELPER_DRIVERS]
+        else:
+            As = C09_DRIVERS + ("topin",) if pos == "same" else C09_DRIVERS
+            pairs = [("hu", b) for b in (None,) + C09_DRIVERS + HELPER_DRIVERS] \
+                + [(a, b) for a in ("hw", "hd") for b in (None, "u", "net", "hu", a)] \
+                + [(a, "hu") for a in As] + [(a, b) for a in ("u", "net") for b in ("hw", "hd")]
+        for A, B in pairs:
+            full = A == "hu" and B in (None, "u", "net", "hu")
+            for shape, lst in C09_SHAPES.items():
+                if (B is None) != (shape == "none"):
+                    continue
+                n = 0
+                for (ty, vA, vB) in lst:
+                    D = c09_cell(pos, A, B, shape, ty, vA, vB)
+                    if D is not None and (full or n == 0):
+                        D.tag = "func" + D.tag
+                        out.append(D)
+                        n += 1
+    return out
+
+
+FUNC_CALL_SHAPES = {
+    # name: (number of blocks, expected class by construction -- only used for the self-check of
+    # the generator in props/c09.py, the verdict is Elab.tla's)
+    "dd": "MW", "dw": "MW", "ww": "MW", "sw": "MW", "d+diamond": "MW", "dd+third": "MW", "dw+y": "MW",
+    "wd-declared-late": "MW",
+    "single": "ok", "diamond": "ok", "hdiamond": "ok", "d+hdiamond": "MW", "twice": "ok", "deep": "ok", "ro-shared": "ok", "diamond+ro": "ok",
+    "dead+direct": "ok", "wrap+y": "ok", "dead-only": "NW",
+}
+
+
+def func_shapes(core=False):
+    """Call-graph shapes over ONE writing helper hw (writes a view of T): which blocks reach it, and
+    how.  Two blocks reaching it are two drivers of the view; one block reaching it along several
+    paths is one; helpers that only read may be shared; a helper nobody calls drives nothing.
+    core: every shape x position for the plain signal, each other view at one position per shape
+    (deterministic rotation) instead of all three."""
+    out = []
+    for pi, (pos, hostT, kindT, H) in enumerate((("same", 1, "wire", 1), ("child-in", 2, "in", 1),
+                                                 ("child-out", 2, "out", 2))):
+        for vi, (ty, view) in enumerate((("b4", ""), ("St", ".f"), ("b8", "[2:6]"), ("St", ""))):
+            for si, shape in enumerate(FUNC_CALL_SHAPES):
+                if core and vi and (si + vi) % 3 != pi:
+                    continue
+                D = Design(HIER2, "func/%s/%s" % (shape, pos))
+                T = D.sig(hostT, "t", kindT, ty)
+                o = D.obj(T, view)
+                t = VIEWS[ty][view][3]
+                # the view feeds a net, so that the writer of a net is known only through the helper
+                if pos == "child-in":
+                    D.conn(o, D.obj(D.sig(2, "o", "out", t)), 2)
+                else:
+                    D.conn(o, D.obj(D.sig(1, "o", "out", t)), 1)
+                y = D.obj(D.sig(H, "y", "wire", "b4"))
+                W = [(o, "@=")]
+                if shape == "dd":
+                    hw = D.fun(H, W); D.blk("u", H, [], calls=[hw]); D.blk("u", H, [], calls=[hw])
+                elif shape == "dw":
+                    hw = D.fun(H, W); D.blk("u", H, [], calls=[hw]); D.blk("u", H, [], calls=[D.fun(H, calls=[hw])])
+                elif shape == "wd-declared-late":
+                    # callers first, callees last (in the identity order)
+                    D.stmts += [None, None, None, None]
+                    n = len(D.stmts)
+                    hw = n - 1
+                    D.stmts[n - 4] = {"k": "u", "at": H, "wr": [], "rd": [], "calls": [n - 2]}
+                    D.stmts[n - 3] = {"k": "u", "at": H, "wr": [], "rd": [], "calls": [hw]}
+                    D.stmts[n - 2] = {"k": "h", "at": H, "wr": [], "rd": [], "calls": [hw]}
+                    D.stmts[n - 1] = {"k": "h", "at": H, "wr": [{"o": o, "op": "@="}], "rd": [], "calls": []}
+                elif shape == "dw+y":
+                    hw = D.fun(H, W); D.blk("u", H, [], calls=[hw])
+                    D.blk("u", H, [], calls=[D.fun(H, [(y, "@=")], calls=[hw])])
+                elif shape == "ww":
+                    hw = D.fun(H, W)
+                    D.blk("u", H, [], calls=[D.fun(H, calls=[hw])]); D.blk("u", H, [], calls=[D.fun(H, calls=[hw])])
+                elif shape == "sw":
+                    hw = D.fun(H, W); w = D.fun(H, calls=[hw])
+                    D.blk("u", H, [], calls=[w]); D.blk("u", H, [], calls=[w])
+                elif shape == "d+diamond":
+                    hw = D.fun(H, W); D.blk("u", H, [], calls=[hw])
+                    D.blk("u", H, [], calls=[D.fun(H, calls=[hw]), D.fun(H, calls=[hw])])
+                elif shape == "dd+third":
+                    hw = D.fun(H, W); D.blk("u", H, [], calls=[hw]); D.blk("u", H, [(y, "@=")])
+                    D.blk("u", H, [], calls=[hw])
+                elif shape == "single":
+                    D.blk("u", H, [], calls=[D.fun(H, W)])
+                elif shape == "diamond":
+                    hw = D.fun(H, W)
+                    D.blk("u", H, [], calls=[D.fun(H, calls=[hw]), D.fun(H, calls=[hw])])
+                elif shape == "hdiamond":       # the diamond below a helper: b -> top -> {l, r} -> hw
+                    hw = D.fun(H, W)
+                    D.blk("u", H, [], calls=[D.fun(H, calls=[D.fun(H, calls=[hw]), D.fun(H, calls=[hw])])])
+                elif shape == "d+hdiamond":
+                    hw = D.fun(H, W); D.blk("u", H, [], calls=[hw])
+                    D.blk("u", H, [], calls=[D.fun(H, calls=[D.fun(H, calls=[hw]), D.fun(H, calls=[hw])])])
+                elif shape == "twice":
+                    hw = D.fun(H, W); D.blk("u", H, [], calls=[hw, hw])
+                elif shape == "deep":
+                    hw = D.fun(H, W); D.blk("u", H, [], calls=[D.fun(H, calls=[D.fun(H, calls=[hw])])])
+                elif shape == "ro-shared":
+                    hw = D.fun(H, W); hr = D.fun(H, rd=[o])
+                    D.blk("u", H, [], calls=[hw, hr]); D.blk("u", H, [(y, "@=")], calls=[hr])
+                elif shape == "diamond+ro":
+                    hw = D.fun(H, W); hr = D.fun(H, rd=[o])
+                    D.blk("u", H, [], calls=[D.fun(H, calls=[hw, hr]), D.fun(H, calls=[hr, hw])])
+                    D.blk("u", H, [(y, "@=")], calls=[hr])
+                elif shape == "dead+direct":
+                    D.fun(H, W); D.blk("u", H, W)
+                elif shape == "wrap+y":
+                    hw = D.fun(H, W); D.blk("u", H, [], calls=[D.fun(H, [(y, "@=")], calls=[hw])])
+                elif shape == "dead-only":
+                    D.fun(H, W)
+                else:
+                    raise AssertionError(shape)
+                out.append(D)
+    return out
+
+
+def func_extras():
+    out = []
+    # ---- port rules through a helper: the table of c09_extras' port/ family with the access in a helper
+    for at, host, kind, acc in ((1, 1, "wire", "r"), (1, 2, "wire", "r"), (1, 2, "out", "r"), (1, 2, "in", "r"),
+                                (1, 4, "wire", "r"), (2, 2, "wire", "r"), (2, 4, "wire", "r"), (2, 4, "out", "r"),
+                                (1, 1, "in", "w"), (1, 1, "out", "w"), (1, 2, "out", "w"), (1, 2, "wire", "w"),
+                                (1, 2, "in", "w"), (1, 4, "in", "w"), (2, 2, "in", "w"), (2, 4, "in", "w"),
+                                (2, 2, "out", "w"), (2, 4, "out", "w"), (1, 4, "wire", "w")):
+        for ty, view in (("b4", ""), ("St", ".g.p")):
+            for via in ("direct", "wrapped"):
+                D = Design(HIER3, "func/port/%s/%s-of-%d-from-%d/%s" % (acc, kind, host, at, via))
+                T = D.sig(host, "t", kind, ty)
+                if acc == "r":
+                    h = D.fun(at, rd=[D.obj(T, view)])
+                    w = D.sig(at, "w", "wire", VIEWS[ty][view][3])
+                    wr = [(D.obj(w), "@=")]
+                else:
+                    h = D.fun(at, [(D.obj(T, view), "@=")])
+                    wr = []
+                if via == "wrapped":
+                    h = D.fun(at, calls=[h])
+                D.blk("u", at, wr, calls=[h])
+                out.append(D)
+    # ---- assignment operators inside a helper (outcome only recorded when wrong for the caller)
+    for kind in ("u", "f"):
+        for op in ("=", "@=", "<<="):
+            for ty, view in (("b4", ""), ("b4", "[0:2]"), ("St", ".f")):
+                D = Design(HIER2, "func/op/%s/%s" % (kind, op))
+                T = D.sig(1, "t", "wire", ty)
+                D.blk(kind, 1, [], calls=[D.fun(1, [(D.obj(T, view), op)])])
+                out.append(D)
+    # ---- helpers calling each other in a cycle
+    for tag in ("self", "two", "dead", "below-a-writer"):
+        D = Design(HIER2, "func/cycle/" + tag)
+        T = D.obj(D.sig(1, "t", "wire", "b4"))
+        D.conn(T, D.obj(D.sig(1, "o", "out", "b4")), 1)
+        n = len(D.stmts)
+        if tag == "self":
+            D.stmts.append({"k": "h", "at": 1, "wr": [{"o": T, "op": "@="}], "rd": [], "calls": [n]})
+            D.blk("u", 1, [], calls=[n])
+        elif tag == "two":
+            D.stmts.append({"k": "h", "at": 1, "wr": [{"o": T, "op": "@="}], "rd": [], "calls": [n + 1]})
+            D.fun(1, calls=[n])
+            D.blk("u", 1, [], calls=[n])
+        elif tag == "dead":
+            D.stmts.append({"k": "h", "at": 1, "wr": [], "rd": [], "calls": [n + 1]})
+            D.fun(1, calls=[n])
+            D.blk("u", 1, [(T, "@=")])
+        else:
+            hw = D.fun(1, [(T, "@=")], calls=[n + 1])
+            D.stmts.append({"k": "h", "at": 1, "wr": [], "rd": [], "calls": [n + 2]})
+            D.fun(1, calls=[n + 1])
+            D.blk("u", 1, [], calls=[hw])
+        out.append(D)
+    return out
+
+
+def helperize(D, R):
+    """Metamorphic twin of D: some writes of one @update block move into an @s.func helper the block
+    calls -- directly, through a wrapper, or through a diamond.  Per-bit driver sets, nets and
+    writers are unchanged, so Elab.tla must give the same analysis and pymtl3 the same outcome.
+    With `share` a second block calling the writing helper is added (two drivers).  None if D has
+    no suitable block."""
+    cands = [i for i, st in enumerate(D.stmts) if st["k"] == "u" and st["wr"] and not st["rd"]]
+    if not cands:
+        return None
+    M = Design.load(json.loads(json.dumps(D.dump())))
+    for st in M.stmts:
+        st.setdefault("calls", []) if st["k"] != "c" else None
+    bi = R.choice(cands)
+    st = M.stmts[bi]
+    k = R.randint(1, len(st["wr"]))
+    moved = sorted(R.sample(range(len(st["wr"])), k))
+    wr = [st["wr"][j] for j in moved]
+    st["wr"] = [w for j, w in enumerate(st["wr"]) if j not in moved]
+    shape = R.choice(["direct", "direct", "wrapper", "diamond", "split"])
+    H = st["at"]
+    if shape == "split" and len(wr) > 1:
+        # one helper per moved write, the second called by the first
+        h2 = M.fun(H, [(wr[1]["o"], wr[1]["op"])] + [(w["o"], w["op"]) for w in wr[2:]])
+        st["calls"] = [M.fun(H, [(wr[0]["o"], wr[0]["op"])], calls=[h2])]
+    else:
+        hw = M.fun(H, [(w["o"], w["op"]) for w in wr])
+        if shape == "wrapper":
+            st["calls"] = [M.fun(H, calls=[hw])]
+        elif shape == "diamond":
+            st["calls"] = [M.fun(H, calls=[hw]), M.fun(H, calls=[hw])]
+            if R.random() < 0.5:
+                st["calls"] = [M.fun(H, calls=st["calls"])]
+        else:
+            st["calls"] = [hw]
+    M.tag = D.tag + "+hz"
+    if R.random() < 0.3:
+        # a second block of the same component reaches the (first) writing helper as well
+        hw = next(i for i in range(len(M.stmts) - 1, -1, -1) if M.stmts[i]["k"] == "h" and M.stmts[i]["wr"])
+        M.blk("u", H, [], calls=[hw] if R.random() < 0.5 else [M.fun(H, calls=[hw])])
+        M.tag += "+share"
+    # helpers in a random position among the statements (identity order = declaration order)
+    order = list(range(len(M.stmts)))
+    R.shuffle(order)
+    inv = {old: new for new, old in enumerate(order)}
+    M.stmts = [M.stmts[old] for old in order]
+    for s2 in M.stmts:
+        if s2["k"] != "c":
+            s2["calls"] = [inv[c] for c in s2["calls"]]
+    return M
+
+
+def helperized(designs, rate):
+    """The helperize() twins of a seeded fraction of `designs` (the generator stream that made
+    `designs` is not touched: the choice is seeded by the design's own text)."""
+    out = []
+    for D in designs:
+        R = random.Random("hz|" + D.key())
+        if R.random() < rate and not D.has_helpers():
+            M = helperize(D, R)
+            if M is not None:
+                out.append(M)
     return out
 
 
